@@ -8,6 +8,7 @@ dominance along `self.*` delegation (incl. the operator protocol:
 from __future__ import annotations
 
 import ast
+import re
 from typing import Callable, Dict, List, Optional, Sequence, Set, Tuple
 
 from sa import astutil as A
@@ -421,7 +422,7 @@ def _optional_scalar_fields(idx: Index, cls) -> Set[str]:
   return out
 
 
-def optional_truthiness_hits(idx: Index, relfiles: Sequence[str]):
+def optional_truthiness_hits(idx: Index, relfiles: Sequence[str], sized_classes: Sequence[str] = ()):
   """[(func, lineno, expression, annotation/why)]: an optional number (a
   parameter annotated Optional[int|float]/Union[None,int,str], or such a field
   of the enclosing class read as self.<field>) used in boolean context
@@ -470,18 +471,27 @@ def optional_truthiness_hits(idx: Index, relfiles: Sequence[str]):
         seen.add((nm, line))
         if kind == 'name' and _optional_scalar_annotation(ps.get(nm, '')):
           hits.append((f, line, nm, ps[nm]))
+        elif kind == 'name' and sized_classes and ('Optional[' in ps.get(nm, '') or 'None' in ps.get(nm, '')) \
+            and not any(x in ps.get(nm, '') for x in ('Callable', 'List[', 'Dict[', 'Set[', 'Sequence', 'Tuple[', 'Iterable',
+                                                      'Mapping', 'Iterator')) \
+            and any(re.search(r"(^|[^\w])%s([^\w]|$)" % c, ps.get(nm, '')) for c in sized_classes):
+          # an optional object whose class defines __len__ / __bool__: an EMPTY one is falsy
+          hits.append((f, line, nm, ps[nm]))
         elif kind == 'attr' and nm in fields:
           hits.append((f, line, 'self.' + nm, 'optional numeric field'))
   return hits, nfuncs
 
 
-def optional_truthiness_obligations(ctx, rule_id: str, relfiles: Sequence[str], why: str):
-  """One obligation per file: no optional number is used in boolean context."""
+def optional_truthiness_obligations(ctx, rule_id: str, relfiles: Sequence[str], why: str,
+                                    sized_classes: Sequence[str] = ()):
+  """One obligation per file: no optional number - and no optional object of a class
+  that defines __len__ (sized_classes: an empty one is falsy) - is used in
+  boolean context."""
   idx = ctx.index
   for rel in relfiles:
     if rel not in idx.by_relpath:
       continue
-    hits, nf = optional_truthiness_hits(idx, [rel])
+    hits, nf = optional_truthiness_hits(idx, [rel], sized_classes)
     ctx.ob(rule_id, rel, not hits,
            'an optional number / id (Optional[int|float], noneable Int/Float field) is tested with `is None`, '
            'never by its truth value: ' + why, rel + ':1',
